@@ -154,7 +154,47 @@ fn check_final(w: &World, r: &Replica, who: &str, reference: &Node, join: &[(u64
             first_diff(&d, reference).unwrap_or_default()
         );
     }
+    // sub-document references: what the document lists as its sub-documents is what its types
+    // reference (a reference that was integrated and removed by one and the same transaction -
+    // merged updates, full-state relays - must not stay listed)
+    let mut referenced = std::collections::BTreeSet::new();
+    doc_guids(&d, &mut referenced);
+    let listed: std::collections::BTreeSet<String> = {
+        use yrs::{ReadTxn, Transact};
+        let txn = r.doc.transact();
+        txn.subdoc_guids().map(|g| g.to_string()).collect()
+    };
+    ensure!(
+        listed == referenced,
+        "c01/subdocuments-listed",
+        "{}: subdoc_guids() lists {:?} but the shared types reference the sub-documents {:?}",
+        who,
+        listed,
+        referenced
+    );
     Ok(())
+}
+
+fn doc_guids(n: &Node, acc: &mut std::collections::BTreeSet<String>) {
+    match n {
+        Node::Doc(g) => {
+            acc.insert(g.clone());
+        }
+        Node::Map(m) => m.values().for_each(|x| doc_guids(x, acc)),
+        Node::Array(v) | Node::XmlFragment(v) => v.iter().for_each(|x| doc_guids(x, acc)),
+        Node::XmlElement { attrs, children, .. } => {
+            attrs.values().for_each(|x| doc_guids(x, acc));
+            children.iter().for_each(|x| doc_guids(x, acc));
+        }
+        Node::Text(units) | Node::XmlText { units, .. } => {
+            for u in units.iter() {
+                if let crate::dump::UnitV::Embed(e) = &u.v {
+                    doc_guids(e, acc);
+                }
+            }
+        }
+        _ => {}
+    }
 }
 
 pub struct Converge;
